@@ -232,6 +232,8 @@ def gen_args(rng, qual, tier):
         out += [(h,) for h in hs]
     elif qual in ("bip39.checksum_length", "bip39.mnemonic_sentence_length", "bip39.correct_entropy_bits_value"):
         out += [(v,) for v in (128, 160, 192, 224, 256, 0, 1, 31, 32, 33, 64, 127, 129, 512, 2 ** 20)]
+    elif qual == "bip85.BIP85DeterministicEntropy.byte_count_from_word_count":
+        out += [(v,) for v in list(range(0, 40)) + [-1, 2 ** 31, True]]
     elif qual == "wallet_utils.Bip32Path.is_hardened":
         out += [(v,) for v in (0, 1, 2 ** 31 - 1, 2 ** 31, 2 ** 31 + 1, 2 ** 32, -1, -2 ** 31)]
     elif qual == "wallet_utils.Bip32Path.is_private":
